@@ -185,3 +185,26 @@ package vamana
 //@   loop 1 invariant forall(k, 0, len(results), results[k].NodeId != 1 && results[k].Distance != nil)
 //@   loop 1 invariant forall(k, 0, len(results), bhas(resultSet, results[k].NodeId))
 //@   loop 1 invariant forall(k, 0, len(results), exists(j, 0, rangeindex+1, results[k].NodeId == pid(searchSet.items[j].Point) && results[k].HybridScore == -1 * searchSet.items[j].Distance * weight))
+
+//@ func (*DistSet).Len
+//@   trusted
+//@   pure
+//@   ensures result == len(ds.items)
+
+// pruning a node whose neighbour is deleted (property C10): the rebuilt edge list respects the
+// degree bound and has no self loop, whichever of the two ways it is rebuilt.
+//@ func (*IndexVamana).pruneDeleteNeighbour
+//@   property C10
+//@   floats order
+//@   safety -overflow -makelen -nil
+//@   requires nodeA != nil && unheld(nodeA.edgesMu) && iv.parameters.DegreeBound >= 1
+//@   requires iv.nodeStore != nil && unheld(iv.nodeStore.itemsMu) && iv.nodeStore.items != nil && forallv(k2 uint64, contains(iv.nodeStore.items, k2) ==> iv.nodeStore.items[k2] != nil)
+//@   after GetMany assume forall(k3, 0, len(result0), result0[k3] != nil && result0[k3] != nodeA && unheld(result0[k3].edgesMu))
+//@   ensures unheld(nodeA.edgesMu)
+//@   ensures result == nil ==> len(nodeA.edges) <= iv.parameters.DegreeBound && nodeSync(nodeA.edges, nodeA.neighbours)
+//@   ensures result == nil ==> forall(k, 0, len(nodeA.edges), nodeA.edges[k] != nodeA.Id)
+//@   loop 1 invariant rangeindex >= -1 && rangeindex < len(nodeA.edges) && heldW(nodeA.edgesMu)
+//@   loop 2 invariant rangeindex >= -1 && rangeindex < len(expandedNodes) && heldW(nodeA.edgesMu) && forall(k3, 0, len(expandedNodes), expandedNodes[k3] != nil && expandedNodes[k3] != nodeA && unheld(expandedNodes[k3].edgesMu))
+//@   loop 3 invariant rangeindex >= -1 && heldW(nodeA.edgesMu)
+//@   loop 4 invariant rangeindex >= -1 && rangeindex < len(candidateSet.items) && heldW(nodeA.edgesMu) && len(candidateSet.items) <= iv.parameters.DegreeBound
+//@   loop 4 invariant nodeSync(nodeA.edges, nodeA.neighbours) && len(nodeA.edges) <= rangeindex + 1 && forall(k, 0, len(nodeA.edges), nodeA.edges[k] != nodeA.Id)
